@@ -138,3 +138,35 @@ def enclosing_loops(fnode, target):
         return False
     rec(fnode, [])
     return path
+
+
+def inline_call(call, repo, module):
+    """`helper(a, b)` with a straight-line helper of the same module (assignments to fresh names, then `return <expr>`):
+    the returned expression with the helper's temporaries expanded and its formals replaced by the actual arguments.
+    None when the call is not of that kind."""
+    import copy as _copy
+    if not (isinstance(call, ast.Call) and isinstance(call.func, ast.Name) and not call.keywords):
+        return None
+    r = repo.resolve_name(module, call.func.id)
+    if not r or r[0] != 'func' or r[1].module != module:
+        return None
+    h = r[1].node
+    body = [b for b in h.body if not (isinstance(b, ast.Expr) and isinstance(b.value, ast.Constant)) and
+            not isinstance(b, ast.Assert)]
+    if not body or not isinstance(body[-1], ast.Return) or body[-1].value is None or len(h.args.args) != len(call.args):
+        return None
+    if not all(isinstance(b, ast.Assign) and len(b.targets) == 1 and isinstance(b.targets[0], ast.Name) for b in body[:-1]):
+        return None
+    env = {a.arg: v for a, v in zip(h.args.args, call.args)}
+
+    class S(ast.NodeTransformer):
+        def visit_Name(self, node):
+            if isinstance(node.ctx, ast.Load) and node.id in env:
+                return ast.copy_location(_copy.deepcopy(env[node.id]), node)
+            return node
+    for b in body[:-1]:
+        env[b.targets[0].id] = S().visit(_copy.deepcopy(b.value))
+    out = S().visit(_copy.deepcopy(body[-1].value))
+    ast.copy_location(out, call)
+    ast.fix_missing_locations(out)
+    return out
